@@ -324,7 +324,8 @@ def tlc_emit(module, cfg, marker, workers=NCPU, heap="8g", timeout=900, cache_de
         mm = STATS_RE.match(line)
         if mm:
             gen, states = int(mm.group(1)), int(mm.group(2))
-    violated = re.findall(r"Error: Invariant (\S+) is violated", txt)
+    violated = re.findall(r"Error: Invariant (\S+) is violated", txt) + re.findall(r"Error: Temporal properties were violated", txt) \
+        + re.findall(r"Error: Temporal property (\S+) was violated", txt)
     if "Finished in" not in txt:
         raise Broken("TLC %s/%s did not finish (rc=%s)\n%s" % (module, cfg, rcs[0], txt[-2000:]))
     log("emit %s/%s: %d payloads, %d distinct states, %.1fs" % (module, cfg, len(out), states, time.time() - t0))
